@@ -104,6 +104,78 @@ theorem write_hook_unhandled (s : Machine) (hrax : s.regs.get RAX = 1)
     List.find?_eq_none.mpr (fun p hm => by simpa using hw p hm)
   simp [hookPipeWrite, hrax, pipeWrite, this]
 
+/-! ## the syscall hooks are the abstract operations (what ties `fifo_all_histories` to guest calls) -/
+
+/-- **A handled read() is exactly `pipeRead`**: the delivered bytes are stored at RSI, RAX is their number, the table is
+    the one `pipeRead` returns, and nothing else of the machine changes. -/
+theorem read_hook_spec (s s' : Machine) (h : hookPipeRead s = .ok .handled s') :
+    ∃ bytes ps m, pipeRead s.sys.pipes (s.regs.get RDI).toNat (s.regs.get RDX).toNat = some (bytes, ps) ∧
+      memWriteBytes s.mem (s.regs.get RSI).toNat bytes = .ok m ∧
+      s' = setGpr { s with mem := m, sys := { s.sys with pipes := ps } } RAX (BitVec.ofNat 64 bytes.length) := by
+  unfold hookPipeRead at h
+  split at h
+  · cases h
+  · dsimp only at h
+    split at h
+    · cases h
+    · rename_i bytes ps hp
+      split at h
+      · cases h
+      · cases h
+      · rename_i m hm
+        refine ⟨bytes, ps, m, hp, hm, ?_⟩
+        injection h with _ h2
+        exact h2.symm
+
+/-- **A failed read() loses nothing**: when the destination cannot take the bytes the call is an error and the machine —
+    in particular the queue — is exactly as before; the next read still gets those bytes. -/
+theorem failed_read_keeps_queue (s s' : Machine) (h : hookPipeRead s = .err s') : s' = s := by
+  unfold hookPipeRead at h
+  split at h
+  · cases h
+  · dsimp only at h
+    split at h
+    · cases h
+    · split at h
+      · injection h with h; exact h.symm
+      · cases h
+      · cases h
+
+/-- **A handled write() is exactly `pipeWrite`** of the RDX bytes at RSI; RAX is the count. -/
+theorem write_hook_spec (s s' : Machine) (h : hookPipeWrite s = .ok .handled s') :
+    ∃ bytes ps, memReadBytes s.mem (s.regs.get RSI).toNat (s.regs.get RDX).toNat = .ok bytes ∧
+      pipeWrite s.sys.pipes (s.regs.get RDI).toNat bytes = some ps ∧
+      s' = setGpr { s with sys := { s.sys with pipes := ps } } RAX (BitVec.ofNat 64 (s.regs.get RDX).toNat) := by
+  unfold hookPipeWrite at h
+  split at h
+  · cases h
+  · dsimp only at h
+    split at h
+    · cases h
+    · split at h
+      · cases h
+      · cases h
+      · rename_i bytes hb
+        split at h
+        · cases h
+        · rename_i ps hp
+          refine ⟨bytes, ps, hb, hp, ?_⟩
+          injection h with _ h2
+          exact h2.symm
+
+/-- a failed write() (unreadable source) queues nothing -/
+theorem failed_write_queues_nothing (s s' : Machine) (h : hookPipeWrite s = .err s') : s' = s := by
+  unfold hookPipeWrite at h
+  split at h
+  · cases h
+  · dsimp only at h
+    split at h
+    · cases h
+    · split at h
+      · injection h with h; exact h.symm
+      · cases h
+      · split at h <;> cases h
+
 /-! ## the read ends never change, only queue contents -/
 
 theorem write_keys (ps ps' : Pipes) (fd : Nat) (bytes) (h : pipeWrite ps fd bytes = some ps') :
